@@ -60,8 +60,8 @@ Definition learn_moves_ok (w : world) (i : nat) (changed : list nat) : bool :=
 (* the observed population is transmitted incrementally: a step that can only have changed one member (training)
    carries that member's new observation, the others keep theirs.  Alias classes are numbered per CASE (stable
    identifiers of the observed objects), so observations taken at different steps can be put side by side. *)
-(* lists of small numbers cross into Coq packed into ONE binary number (20 bits per element, element + 1, least
-   significant first): a literal costs one syntax node instead of one per element *)
+(* lists of small numbers cross into Coq packed ten to a binary number (20 bits per element, element + 1, least
+   significant first): ten times fewer syntax nodes to elaborate *)
 Fixpoint unpack_f (fuel : nat) (x : N) : list N :=
   match fuel with
   | O => []
@@ -69,7 +69,8 @@ Fixpoint unpack_f (fuel : nat) (x : N) : list N :=
   end.
 Definition unpack (x : N) : list N := unpack_f (S (N.to_nat (N.log2 x / 20))) x.
 
-Definition entry := (aobs * N * N)%type.          (* structure, packed alias classes, packed value classes *)
+Definition unpacks (l : list N) : list N := flat_map unpack l.
+Definition entry := (aobs * list N * list N)%type.          (* structure, packed alias classes, packed value classes *)
 Inductive change := Full (p : list entry) | Upd (us : list (nat * entry)).
 Definition apply_change (c : change) (p : list entry) : list entry :=
   match c with
@@ -77,7 +78,7 @@ Definition apply_change (c : change) (p : list entry) : list entry :=
   | Upd us => fold_left (fun acc u => update (fst u) (snd u) acc) us p
   end.
 Definition to_obs (p : list entry) : obs :=
-  mkObs (concat (map (fun e => unpack (snd (fst e))) p)) (concat (map (fun e => unpack (snd e)) p)) (map (fun e => fst (fst e)) p).
+  mkObs (concat (map (fun e => unpacks (snd (fst e))) p)) (concat (map (fun e => unpacks (snd e)) p)) (map (fun e => fst (fst e)) p).
 
 Record gstep := mkG { gs_ops : list op; gs_obs : change; gs_learn : option (nat * list nat); gs_arch : list afollow }.
 
